@@ -276,6 +276,7 @@ pub fn run_one(opts: RunOpts) -> RunResult {
         same_process_probes: 0,
         part_weight: *rng.pick(&[25u64, 25, 3]),
         fault_weight: if plan.cfg.max_faults > 2 { 12 } else { *rng.pick(&[2u64, 2, 12]) },
+        last_fault_method: None,
         target: opts.target.clone(),
         rng: Rng::new(mix(opts.seed, 77)),
         rec_cache: vec![None; n_hashes],
@@ -609,7 +610,11 @@ fn enabled_steps(w: &World, mgr_up: bool, script: &Option<Script>) -> Vec<(Step,
                 }
                 if !scripted && w.faults_done < w.cfg.max_faults {
                     // some runs have a flaky node (faults 6x as likely)
-                    let fw = w.fault_weight;
+                    let mut fw = w.fault_weight;
+                    if w.cfg.max_faults > 2 && w.last_fault_method.as_deref() == Some(c.method.as_str()) {
+                        // outage: the service that failed last keeps failing
+                        fw *= 25;
+                    }
                     if c.method == "datastore" && w.cfg.fault_tier >= 1 {
                         v.push((Step::Fault(c.id, "reject"), fw));
                         v.push((Step::Fault(c.id, "lost-reply"), fw));
@@ -1217,6 +1222,7 @@ fn fault_call(shared: &Shared, id: u64, kind: &'static str) {
     let s = w.step;
     w.fault_positions.push((s, kind));
     w.calls[idx].faulted = true;
+    w.last_fault_method = Some(w.calls[idx].method.clone());
     if let Some(i) = w.calls[idx].hidx {
         w.sets[i].faulted = true;
     }
